@@ -32,5 +32,10 @@ for pid in sorted(meta['checks']):
       "level_note": c['level_note'],
       "technique": c['technique']
     })
+have = set(meta['checks']) | {x['property_id'] for x in meta['not_applicable']}
+for l in open('/verif/properties.jsonl'):
+    pid = json.loads(l)['id']
+    if pid not in have:
+        m['not_applicable'].append({"property_id": pid, "reason": "not claimed yet: check under construction (plan in DESIGN.md section 4); nothing is asserted about this property by the committed machinery"})
 json.dump(m, open('/verif/MANIFEST.json','w'), indent=1)
 print("manifest: %d checks, %d n/a" % (len(m['checks']), len(m['not_applicable'])))
